@@ -166,7 +166,7 @@ FAILED_CONSTRUCTIONS: list = []
 
 def typed(value, cast):
     """the same number as a NumPy scalar: integers (0/1 error indicators) as np.int64, anything else as np.float64"""
-    if cast is None or isinstance(value, bool):
+    if cast is None or isinstance(value, (bool, np.generic)):      # a value that already has a NumPy type (a case about THAT type) is fed as it is
         return value
     if cast == "int64" and float(value) == int(value) and abs(value) < 2**53:
         return np.int64(int(value))
